@@ -10366,7 +10366,11 @@ class TensorDictBase(MutableMapping):
         else:
             other_val = other
         if alpha is not None:
-            vals = torch._foreach_add(vals, other_val, alpha=alpha)
+            if isinstance(other_val, (list, tuple)):
+                vals = torch._foreach_add(vals, other_val, alpha=alpha)
+            else:
+                # no fused overload takes a scalar (or 0-d tensor) together with alpha
+                vals = [torch.add(val, other_val, alpha=alpha) for val in vals]
         else:
             vals = torch._foreach_add(vals, other_val)
         items = dict(zip(keys, vals))
@@ -10418,7 +10422,12 @@ class TensorDictBase(MutableMapping):
             vals = self._values_list(True, True)
             other_val = self._inplace_tensor_operand(other, vals)
         if alpha is not None:
-            torch._foreach_add_(vals, other_val, alpha=alpha)
+            if isinstance(other_val, (list, tuple)):
+                torch._foreach_add_(vals, other_val, alpha=alpha)
+            else:
+                # no fused overload takes a scalar (or 0-d tensor) together with alpha
+                for val in vals:
+                    val.add_(other_val, alpha=alpha)
         else:
             torch._foreach_add_(vals, other_val)
         return self
@@ -10654,7 +10663,11 @@ class TensorDictBase(MutableMapping):
         else:
             other_val = other
         if alpha is not None:
-            vals = torch._foreach_sub(vals, other_val, alpha=alpha)
+            if isinstance(other_val, (list, tuple)):
+                vals = torch._foreach_sub(vals, other_val, alpha=alpha)
+            else:
+                # no fused overload takes a scalar (or 0-d tensor) together with alpha
+                vals = [torch.sub(val, other_val, alpha=alpha) for val in vals]
         else:
             vals = torch._foreach_sub(vals, other_val)
         items = dict(zip(keys, vals))
@@ -10693,7 +10706,12 @@ class TensorDictBase(MutableMapping):
             vals = self._values_list(True, True)
             other_val = self._inplace_tensor_operand(other, vals)
         if alpha is not None:
-            torch._foreach_sub_(vals, other_val, alpha=alpha)
+            if isinstance(other_val, (list, tuple)):
+                torch._foreach_sub_(vals, other_val, alpha=alpha)
+            else:
+                # no fused overload takes a scalar (or 0-d tensor) together with alpha
+                for val in vals:
+                    val.sub_(other_val, alpha=alpha)
         else:
             torch._foreach_sub_(vals, other_val)
         return self
